@@ -646,6 +646,8 @@ class Engine:
                     break
             if skeleton is not None:
                 out = []
+                self.assumptions_used.add("the text of f'{value:spec}' is an uninterpreted function of (the literal skeleton of spec, value, embedded "
+                                          "width / precision expressions): which characters CPython prints is not modelled")
                 for s, vals in self.ev_seq([fv.value] + emb, st):
                     try:
                         out.append((s, self.fmt_app(skeleton, vals[0], list(vals[1:]))))
